@@ -35,7 +35,7 @@ def describe(rep):
         'callbacks, a step finished without a fine sweep must have exhausted its budget or been forced. (b) whole runs with the real residual on '
         'symbolic initial values: the residual recorded at post_iteration/post_step is the defect of the node values held at that moment.'
     )
-    rep.rule = 'case = (sweeper, M, residual type, tau) for (a); execution path for (c), (d), (b)'
+    rep.rule = 'case = (sweeper, M, residual type, tau, node family, level, fresh level / level that held other values at the same time before) for (a); execution path for (c), (d), (b)'
     rep.assume('reals for floats on the data path', 'linear stub problems with symbolic coefficients', 'dt > 0; |u0| > 0 for relative residual types')
     rep.out_of_scope('MPI sweepers (Allreduce based residual)', 'skip_residual_computation (documented to give incorrect residuals)')
 
